@@ -233,6 +233,12 @@ def r4(ctx, R):
         R.undecided("C16.R4", f.short, "header lines", loc(f, f.node), "no `v = <conn>.readline()` statement")
         return
     rd_node = cfg.node_of(rd)
+    # names the length is copied from (`ret = length` of an inlined helper)
+    lks = {lk}
+    for _ in range(4):
+        for st in ctx.m.walk_own(f.node):
+            if isinstance(st, ast.Assign) and len(st.targets) == 1 and isinstance(st.targets[0], ast.Name) and st.targets[0].id in lks and isinstance(st.value, ast.Name):
+                lks.add(st.value.id)
 
     def parses(n, var):
         if n.ast is None or n.kind not in ("stmt", "test"):
@@ -259,7 +265,7 @@ def r4(ctx, R):
                 from sa.cfg import derive
 
                 fs = derive(lab[1], lab[0] == "T")
-                if ("nonnull", lk) in fs:
+                if any(("nonnull", x) in fs for x in lks):
                     continue  # length already known: the line need not be examined
                 if ("eq", var, "'\\r\\n'") in fs or ("eq", var, "''") in fs or ("empty", var) in fs:
                     continue  # blank line (end of headers) or end of input
